@@ -479,6 +479,12 @@ impl WorkStealingExecutor {
             return Some(task);
         }
 
+        // 1b. balance() moves tasks from our local queue to our own steal queue, which only
+        // other workers poll: take them back, otherwise a single worker strands them forever
+        if let Some(task) = my_queue.steal() {
+            return Some(task);
+        }
+
         verif_point!("ws.find.global", my_queue.worker_id());
         // 2. Try global queue
         if let Ok(mut queue) = global_queue.try_lock() {
